@@ -288,9 +288,14 @@ def check(recipe) -> list[Fail]:
             cp = pickle.loads(pickle.dumps(src))
         elif route == "deepcopy":
             cp = _copy.deepcopy(src)
-        elif route in ("concat", "or"):
+        elif route in ("concat", "or", "concat3"):
             other, _ = build("Structure", recipe["mol2"])
-            cp = ml.Structure.concatenate(src, other) if route == "concat" else (src | other)
+            if route == "concat3":
+                # three operands in one call (the | operator only ever passes two)
+                third, _ = build("Structure", recipe["mol"])
+                cp = ml.Structure.concatenate(src, other, third)
+            else:
+                cp = ml.Structure.concatenate(src, other) if route == "concat" else (src | other)
         elif route == "join":
             # both fragments get a well-spread geometry and one attachment point on their first atom
             other, _ = build("Structure", recipe["mol2"])
@@ -317,13 +322,15 @@ def check(recipe) -> list[Fail]:
         return [Fail(f"copy-raises:{tag}:{exc_sig(e) or type(e).__name__}", repr(e)[:300])]
 
     # ---------------- faithful
-    if route in ("concat", "or"):
-        snap_o = chem.snapshot(other)
+    if route in ("concat", "or", "concat3"):
+        snaps = [snap_src, chem.snapshot(other)] + ([chem.snapshot(third)] if route == "concat3" else [])
         sc = chem.snapshot(cp)
-        n1 = len(snap_src["atoms"])
-        exp_atoms = snap_src["atoms"] + snap_o["atoms"]
-        exp_bonds = snap_src["bonds"] + [(a + n1, b + n1) + tuple(rest) for (a, b, *rest) in snap_o["bonds"]]
-        d = chem.snap_diff({"atoms": exp_atoms, "bonds": exp_bonds, "coords": np.vstack([snap_src["coords"], snap_o["coords"]]), "charge": snap_src["charge"] + snap_o["charge"]}, sc)
+        exp_atoms, exp_bonds, off = [], [], 0
+        for sn in snaps:
+            exp_atoms += sn["atoms"]
+            exp_bonds += [(a + off, b + off) + tuple(rest) for (a, b, *rest) in sn["bonds"]]
+            off += len(sn["atoms"])
+        d = chem.snap_diff({"atoms": exp_atoms, "bonds": exp_bonds, "coords": np.vstack([sn["coords"] for sn in snaps]), "charge": sum(sn["charge"] for sn in snaps)}, sc)
         if d:
             fails.append(Fail(f"unfaithful:{tag}:{d.split(':')[0].split('[')[0]}", d))
     elif route == "join":
@@ -494,7 +501,7 @@ def strat(tier):
         if src_cls == "Conformer":
             rs += ["ctor:Molecule"] * 3 + ["ctor:Structure"]
         if src_cls in ("Structure", "Molecule", "Conformer"):
-            rs += ["concat", "or"]
+            rs += ["concat", "or", "concat3"]
         if src_cls in ("Structure", "Molecule"):
             rs += ["join", "join"]
         if src_cls in ("CartesianGeometry", "Structure", "Molecule", "ConformerEnsemble", "Conformer"):
